@@ -31,6 +31,12 @@ def pathsOf (a : Abs) : Array (Option String) :=
   (a.roots.zipIdx.foldl (fun arr (r, i) => pathsGo a arr r (toString i) 64)
     (Array.replicate a.heap.length none))
 
+def fnv (h : UInt64) (bs : List UInt8) : UInt64 :=
+  bs.foldl (fun h b => (h ^^^ b.toUInt64) * 1099511628211) h
+
+def hex64 (x : UInt64) : String :=
+  String.ofList ((List.range 16).map fun i => hexDigit ((x.toNat / 16 ^ (15 - i)) % 16))
+
 def showId (paths : Array (Option String)) : Option Id → String
   | none => "n"
   | some i => match paths[i]? with
@@ -41,6 +47,7 @@ def showObsWith (paths : Array (Option String)) : Obs → String
   | .none => "."
   | .bad => "bad"
   | .ids l => "[" ++ ",".intercalate (l.map (showId paths)) ++ "]"
+  | .text b => "s=" ++ hex64 (fnv 14695981039346656037 b)
 
 def showObs (a : Abs) (o : Obs) : String := showObsWith (pathsOf a) o
 
@@ -49,9 +56,6 @@ def resolve (a : Abs) : List Nat → Option Id
   | r :: rest => do
     let root ← a.roots[r]?
     rest.foldlM (fun n i => (a.kids n)[i]?) root
-
-def fnv (h : UInt64) (bs : List UInt8) : UInt64 :=
-  bs.foldl (fun h b => (h ^^^ b.toUInt64) * 1099511628211) h
 
 /-- digest of the whole tree: per node `depth tag value ptr\n`, preorder -/
 partial def digest (a : Abs) : UInt64 :=
@@ -70,15 +74,10 @@ partial def digest (a : Abs) : UInt64 :=
       (a.kids n).foldl (fun h c => go h c (d + 1) fuel) h
   a.roots.foldl (fun h r => go h r 0 64) 14695981039346656037
 
-def hex64 (x : UInt64) : String :=
-  String.ofList ((List.range 16).map fun i => hexDigit ((x.toNat / 16 ^ (15 - i)) % 16))
-
 def probeTags (a : Abs) (r : Id) : List Str :=
   if a.tag r == tINDI then [tNAME, tBIRT, tDEAT, tFAMS, tFAMC]
   else if a.tag r == tFAM then [tHUSB, tWIFE, tCHIL]
   else []
-
-def tDATE : Str := [68, 65, 84, 69]
 
 /-- the views a `dump` reads, in this order -/
 def dumpViews (a : Abs) : List View :=
@@ -125,12 +124,13 @@ def runOp (fl : Flags) (s : St) (toks : List String) : St × String :=
   match toks with
   | ["dump"] => runDump fl s
   | ["rebuild"] =>
-    -- the conclusion of `views_fresh_decode`, evaluated: every view of the live state, rendered by
+    -- the conclusion of `views_fresh_decode_partial` (hence its hypotheses' consequence), evaluated: every view of the live state, rendered by
     -- position, against the same views of the state rebuilt from the forest the text encodes
     let live := (runDump fl s).2
     let fresh := (runDump fl (ofForest (toForest (abs s)))).2
     (s, if live == fresh then "r=1" else "r=0")
   | ["warn"] => stepShow .warnings
+  | ["str"] => stepShow .string
   | ["foreign"] => stepShow .foreign
   | ["inert"] => stepShow .inert
   | ["inds"] => stepShow (.read .individuals)
@@ -184,6 +184,7 @@ def runOp (fl : Flags) (s : St) (toks : List String) : St × String :=
     | some (path, rest) =>
       let n := (resolve a path).getD (noNode s)
       match cmd, rest with
+      | "gs", [] => stepShow (.gedcomString n)
       | "nwt", [t] => match fromHex t with
         | some t => stepShow (.read (.nodesWithTag n t))
         | none => (s, "bad-op")
